@@ -8,6 +8,7 @@ implementation's output.
 import Reamber.Lemmas.RateStack
 import Reamber.Lemmas.RateLaws
 import Reamber.Generated.RateSchema
+import Reamber.Spec.Timing
 
 namespace Reamber.Rate
 
@@ -155,6 +156,68 @@ theorem rate_comp (k : SetKind) (g : Game) (a b : Rat) (s : MapSet) (hok : setOk
 theorem rate_inverse (k : SetKind) (g : Game) (r : Rat) (s : MapSet) (hok : setOk k g s = true) (hr : r ≠ 0) :
     (rateSet k g r s >>= rateSet k g (1 / r)) = .ok s := by
   rw [rate_comp k g r (1 / r) s hok hr (by simp [hr]), mul_one_div_cancel hr, rate_one k g s hok]
+
+/-- the Boolean specification at ε = 0 is the declarative statement, column by column: if `frameScales` accepts
+`out` for `inp`, then `out` has the columns of `inp` and each column is the scaled column (row order kept) -/
+theorem frame_spec_sound (r : Rat) (inp out : Frame) (h : closeFrame 0 (scaleFrame r inp) out = true) :
+    (∀ c, c ∈ inp.cols ↔ c ∈ out.cols) ∧ out.rows.length = inp.rows.length ∧
+    ∀ c ∈ inp.cols, out.col c = (inp.col c).map (scaleCell r c) := by
+  obtain ⟨h1, h2, h3⟩ := closeFrame_zero h
+  refine ⟨h1, by simpa [scaleFrame] using h2.symm, fun c hc => ?_⟩
+  rw [← h3 c hc, col_scaleFrame]
+
+/-! ## survives a write — the part that is provable without the writers' models
+
+Full statement ([M] `rate_write_read` of DESIGN §6): for each writable game,
+`denote (write (rate r c)) = rate r (denote (write c))`.  It needs the writer / reader models of C01, C03, C05, C06
+(`denote ∘ write = id` on representable charts), which are other properties' and not available here.  What is proved
+below is the tempo-map half, on the shared declarative semantics `Timing.timeAt` (the reading of StepMania `#OFFSET`
++ `#BPMS` + note positions, of BMS measures, of O2Jam packages): a file whose initial offset is `t0 / r` and whose
+tempos are all multiplied by `r` places **every** position at `1/r` of its former time.  That is exactly what
+`SMMapSet.rate` must establish between the file-level `offset` and the maps (D04), and it fails if `offset` is left
+unscaled (`d04_offset_must_scale`).  The write → read claim itself is checked on the implementation only. -/
+
+open Timing in
+/-- tempo change with the tempo multiplied by `r` (position and metronome kept) -/
+def rateBc (r : Rat) (c : Timing.BcSnap) : Timing.BcSnap := { c with bpm := c.bpm * r }
+
+open Timing in
+theorem timeAtAux_rate (r : Rat) (rest : List BcSnap) (T : Rat) (cur : BcSnap) (s : Snap) :
+    timeAtAux (T / r) (rateBc r cur) (rest.map (rateBc r)) s = timeAtAux T cur rest s / r := by
+  have hb : ∀ b : Rat, beatLen (b * r) = beatLen b / r := fun b => by
+    simp only [beatLen]; rw [div_mul_eq_div_div]
+  induction rest generalizing T cur with
+  | nil =>
+    simp only [List.map_nil, timeAtAux, rateBc, hb]
+    ring
+  | cons nxt rest ih =>
+    simp only [List.map_cons, timeAtAux]
+    have e : (rateBc r nxt).snap = nxt.snap := rfl
+    rw [e]
+    split
+    · have : T / r + snapDist (rateBc r cur).snap nxt.snap (rateBc r cur).met * beatLen (rateBc r cur).bpm
+          = (T + snapDist cur.snap nxt.snap cur.met * beatLen cur.bpm) / r := by
+        simp only [rateBc, hb]; ring
+      rw [this, ih]
+    · simp only [rateBc, hb]
+      ring
+
+open Timing in
+/-- **rate_write_read_partial** (tempo-map half of "survives a write"): with the initial offset divided by `r`
+and every tempo multiplied by `r`, every snap position is read at `1/r` of its former time — for all tempo lists,
+all snaps, all `r` (the positions in beats are untouched by a rate change). -/
+theorem rate_write_read_partial (r t0 : Rat) (cs : List BcSnap) (s : Snap) :
+    timeAt (t0 / r) (cs.map (rateBc r)) s = timeAt t0 cs s / r := by
+  cases cs with
+  | nil => simp [timeAt]
+  | cons c rest => simpa [timeAt] using timeAtAux_rate r rest t0 c s
+
+open Timing in
+/-- D04 (fixed in /repo, `fix:` b2f8d95): with the file offset left unscaled the written file does not denote the
+rated timeline — offset 1000 ms, 120 bpm, rate 2: the note on beat 1 belongs at 750 ms, the file says 1250 ms. -/
+theorem d04_offset_must_scale :
+    timeAt 1000 ([⟨120, 4, ⟨0, 0, some 4⟩⟩].map (rateBc 2)) ⟨0, 1, some 4⟩ ≠
+      timeAt 1000 [⟨120, 4, ⟨0, 0, some 4⟩⟩] ⟨0, 1, some 4⟩ / 2 := by decide +kernel
 
 /-! ## the error branches are not totalised away -/
 
